@@ -853,6 +853,9 @@ void dec_av1_loop_filter_frame_mt(EbDecHandle *dec_handle, EbPictureBufferDesc *
             dec_timer_start(&timer);
 #endif
             while ((!start_lf[0]) || (!start_lf[1]) || (!start_lf[2])) {
+#ifdef SVT_AV1_VERIF
+                SVT_VERIF_SPIN(&dec_mt_frame_data->sb_recon_row_map[row_index[0]]);
+#endif
                 start_lf[0] = 1;
                 start_lf[1] = 1;
                 start_lf[2] = 1;
